@@ -379,7 +379,7 @@ func c06Run(c *engine.Ctx) {
 		}
 	}
 	// mutations of valid texts
-	corpus := wktCorpus(false)
+	corpus := wktCorpus(0)
 	alpha := c06Alphabet(1)
 	c.Parallel(len(corpus), func(i int) {
 		g := corpus[i]
